@@ -218,8 +218,9 @@ PROPS = {
             dict(run="pkg/zzc11.VerifC11Badger", quick=dict(entries=2, ops=1), thorough=dict(entries=2, ops=2), covers=["batch-applied", "batch-refused", "get-hit", "iter-several", "iter-descending", "changed-under-iterator", "done"]),
             dict(run="pkg/zzc11.VerifC11BadgerMetrics", quick=dict(entries=1, ops=1), thorough=dict(entries=2, ops=1), covers=["batch-applied", "batch-refused", "done"]),
             dict(run="pkg/zzc11.VerifC11TiKV", quick=dict(entries=2, ops=1), thorough=dict(entries=2, ops=2), covers=["batch-applied", "batch-refused", "get-hit", "iter-several", "iter-descending", "changed-under-iterator", "done"], validate=2),
+            dict(run="pkg/zzc11.VerifC11TiKVPartitions", covers=["several-regions", "all-three-regions", "done"]),
         ],
-        bounds=dict(quick="each of memkv, Badger, TiKV (and the metrics wrapper over memkv and over Badger): 2 initial entries with symbolic keys of 1..2 bytes over {a,b,c} and symbolic values; then one batch of 1 operation (memkv: 1..2) of put-if-absent / CAS / put / delete with symbolic key, value, expected value and TTL flag, or one Get, one Del, one compare-and-delete (entry optionally really changed under the iterator), or one iteration with symbolic bounds in either direction and limit 0..2 — differential against the contract store",
+        bounds=dict(quick="each of memkv, Badger, TiKV (and the metrics wrapper over memkv and over Badger): 2 initial entries with symbolic keys of 1..2 bytes over {a,b,c} and symbolic values; then one batch of 1 operation (memkv: 1..2) of put-if-absent / CAS / put / delete with symbolic key, value, expected value and TTL flag, or one Get, one Del, one compare-and-delete (entry optionally really changed under the iterator), or one iteration with symbolic bounds in either direction and limit 0..2 — differential against the contract store; the TiKV adapter's GetPartitions over 3 regions split at symbolic keys for any requested interval",
                     thorough="batches of up to 2 operations on every engine (several conditions, a condition on a key written or deleted earlier in the batch); 3 initial entries with single operations on memkv"),
         outside="the engines themselves (Badger's SSI, TiKV's percolator and regions: their client libraries are replaced by models, every counterexample is replayed on the real library / the mock cluster); TTL expiry inside engines; concurrent transactions; keys longer than 2 bytes; a rewrite with the identical value under an iterator (the contract allows delete-if-value-equal or delete-if-version-equal)",
         assumptions=["github.com/huandu/skiplist, github.com/dgraph-io/badger and github.com/tikv/client-go/v2 are replaced by engine models (sorted sequences with snapshots and versions); counterexamples and sampled paths are replayed on the real libraries (Badger in a temp dir, client-go's mock TiKV cluster)"],
